@@ -20,6 +20,12 @@ sys.dont_write_bytecode = True
 
 from . import tlc  # noqa: E402
 
+# asphalt logs start-up timeouts and crashed tasks at ERROR level; the harness provokes them on purpose
+import logging  # noqa: E402
+
+logging.getLogger("asphalt").addHandler(logging.NullHandler())
+logging.getLogger("asphalt").propagate = False
+
 NCPU = int(os.environ.get("VERIF_JOBS", "0")) or min(16, os.cpu_count() or 1)
 
 
